@@ -1,14 +1,5 @@
 #![allow(dead_code)]
-mod gen;
-mod handles;
-mod mem;
-mod model;
-mod ops;
-mod oracles;
-mod payload;
-mod props;
-mod rt;
-mod runner;
+use mqv::{mem, props, rt, runner};
 
 use runner::{KnownFile, Tier, ViolationReport};
 
@@ -84,6 +75,41 @@ fn main() {
             match arg(&args, "--out") {
                 Some(p) => std::fs::write(p, serde_json::to_string(&out).unwrap()).unwrap(),
                 None => println!("{}", serde_json::to_string_pretty(&out).unwrap()),
+            }
+        }
+        "gencorpus" => {
+            // writes scenarios sampled from a part's generator as JSON files (seed corpus of the fuzzer)
+            use proptest::strategy::{Strategy, ValueTree};
+            use proptest::test_runner::{Config, RngAlgorithm, TestRng, TestRunner};
+            let prop = arg(&args, "--prop").expect("--prop");
+            let dir = arg(&args, "--dir").expect("--dir");
+            let n: usize = arg(&args, "--n").and_then(|s| s.parse().ok()).unwrap_or(64);
+            let seed: u64 = arg(&args, "--seed").and_then(|s| s.parse().ok()).unwrap_or(0);
+            let def = reg.iter().find(|d| d.id == prop).expect("unknown property");
+            std::fs::create_dir_all(dir).unwrap();
+            let mut k = 0;
+            for part in &def.parts {
+                let strategy = match &part.source {
+                    runner::Source::Random { strategy, .. } | runner::Source::Systematic { strategy, .. } => *strategy,
+                    _ => continue,
+                };
+                if let Some(p) = arg(&args, "--part") {
+                    if p != part.name {
+                        continue;
+                    }
+                }
+                let mut sb = [0u8; 32];
+                sb[..8].copy_from_slice(&seed.to_le_bytes());
+                sb[8] = k as u8;
+                let mut r = TestRunner::new_with_rng(Config::default(), TestRng::from_seed(RngAlgorithm::ChaCha, &sb));
+                let st = strategy(Tier::Quick);
+                for i in 0..n {
+                    if let Ok(t) = st.new_tree(&mut r) {
+                        let body = serde_json::json!({"part": part.name, "scenario": t.current()});
+                        std::fs::write(format!("{}/{}-{}-{}.json", dir, prop, part.name, i), serde_json::to_string(&body).unwrap()).unwrap();
+                    }
+                }
+                k += 1;
             }
         }
         "replay" => {
